@@ -576,7 +576,7 @@ def check_stream_histories(rec, W, rng, n):
     at, made conditional - in any order.  Whatever Content-Length is served equals the bytes that are served."""
     Response, create_environ = W.Response, W.create_environ
     for _ in range(n):
-        ops = [rng.choice(["write", "write", "writelines", "set_data", "data", "get_data", "touch_stream", "conditional", "calc"]) for _ in range(rng.randint(2, 6))]
+        ops = [rng.choice(["write", "write", "writelines", "writelines_failing", "set_data", "data", "get_data", "touch_stream", "conditional", "calc"]) for _ in range(rng.randint(2, 6))]
         r = Response()
         case = {"part": "stream-history", "ops": ops}
         rec.case()
@@ -588,6 +588,18 @@ def check_stream_histories(rec, W, rng, n):
                     r.stream.write(rng.choice(["ab", "h\u00e9", ""]))
                 elif op == "writelines":
                     r.stream.writelines(["x", "yz"])
+                elif op == "writelines_failing":
+                    # fault: the iterable of lines fails after it has handed over some; the application reports that in the
+                    # body and serves what it has
+                    def lines():
+                        yield "first line\n"
+                        yield "second\n"
+                        raise LookupError("row 3 is missing")
+
+                    try:
+                        r.stream.writelines(lines())
+                    except LookupError:
+                        pass
                 elif op == "set_data":
                     r.set_data(rng.choice(["hello", b"bytes!", ""]))
                 elif op == "data":
